@@ -3,8 +3,9 @@ package props
 // C11 — external sort, every usage history (sequential mode).
 //
 // Input        h <chunkSize> <autoClear 0|1> <i|s> <op>*      ops: p<key>[:<tag>]  f  l  c
+//              x = Push of a value of another type (must return the type-mismatch error, no-op)
 // Observation  one token per op  <res>/<val>/<len>/<pos>
-//              res: ok eof fin panic err:<hex>;  val: - or <key>:<tag> delivered by Pull.
+//              res: ok eof fin rej panic err:<hex>;  val: - or <key>:<tag> delivered by Pull.
 //
 // Element types: `i` = an int type (tag always 0), `s` = a struct whose Less compares the
 // key only, so equal keys with different tags are distinguishable duplicates.
@@ -32,6 +33,12 @@ type mStruct struct {
 
 func (i mStruct) Less(j interface{}) bool { return i.A < j.(mStruct).A }
 
+// mOther is a LessInterface of another type than the sorter's elements: `Push` must reject it
+// with its "type mismatch" error and change nothing (op `x`).
+type mOther string
+
+func (s mOther) Less(j interface{}) bool { return s < j.(mOther) }
+
 // morassErrKind maps an error of the morass API to the observation enum.
 func morassErrKind(err error) string {
 	switch {
@@ -41,6 +48,8 @@ func morassErrKind(err error) string {
 		return "eof"
 	case strings.Contains(err.Error(), "push on finalised"):
 		return "fin"
+	case strings.Contains(err.Error(), "type mismatch"):
+		return "rej"
 	}
 	return "err:" + hx.Hex([]byte(err.Error()))
 }
@@ -121,6 +130,8 @@ func c11Exec(input string) string {
 				}
 			case 'c':
 				tok = morassErrKind(m.Clear()) + "/-"
+			case 'x':
+				tok = morassErrKind(m.Push(mOther("x"))) + "/-"
 			default:
 				panic("c11: bad op " + op)
 			}
@@ -216,6 +227,34 @@ func c11Gen(g *hx.Gen) {
 			}
 			ops = c11Cycle(g, ops, chunk, ty, cnt, pulls, clear, keyRange)
 		}
+		// rejected pushes (a value of another type): a no-op anywhere in the history, in
+		// particular when the chunk is exactly full (the next accepted Push, or Finalise, hands
+		// it over) and right before Finalise
+		if g.Chance(0.3) {
+			for r := g.Range(1, 3); r > 0; r-- {
+				i := g.Intn(len(ops) + 1)
+				if g.Chance(0.5) {
+					// at a chunk boundary of some cycle: after k*chunk accepted pushes
+					var at []int
+					cnt := 0
+					for j, op := range ops {
+						switch op[0] {
+						case 'p':
+							cnt++
+							if cnt%chunk == 0 {
+								at = append(at, j+1)
+							}
+						case 'c':
+							cnt = 0
+						}
+					}
+					if len(at) > 0 {
+						i = at[g.Intn(len(at))]
+					}
+				}
+				ops = append(ops[:i:i], append([]string{"x"}, ops[i:]...)...)
+			}
+		}
 		if illformed && len(ops) > 1 {
 			// ill-formed usage only ties the model to the code (no statement applies):
 			// drop or duplicate one op, or insert a stray one
@@ -260,7 +299,7 @@ func c11Shrink(input string) []string {
 		}
 	}
 	for i, op := range ops {
-		if op[0] == 'p' || op == "l" {
+		if op[0] == 'p' || op == "l" || op == "x" {
 			emit(append(append([]string{}, ops[:i]...), ops[i+1:]...))
 		}
 	}
